@@ -42,6 +42,8 @@ func runC06(c *core.Ctx) {
 	ruleCCITTNoEOLInGroup4(c)
 	ruleCCITTTables(c, "C06-R6")
 	ruleBitAccumulatorReset(c, "C06-R15")
+	rulePredictorInDict(c, "C06-R16")
+	rulePoolPutOwnership(c, "C06-R17")
 	ruleAliasHygiene(c, [3]string{"C06-R12", "C06-R13", "C06-R14"}, "pdf/internal/filter/lzw", "pdf/internal/filter/predict", "pdf/internal/filter/runlength", "pdf/internal/filter/ccittfax", "pdf/internal/filter/ascii85", "pdf/internal/filter/asciihex")
 }
 
@@ -1153,5 +1155,67 @@ func ruleBitAccumulatorReset(c *core.Ctx, rule string) {
 			}
 		}
 		o.Require(n >= 2, "resets of the bit count not found")
+	})
+}
+
+// rulePredictorInDict (C06-R16): the encoder applies a predictor for every
+// /Predictor value other than 1 (and 0 = unset); PNG "None" (10) still adds
+// a tag byte per row.  The parameter dictionary must therefore carry
+// /Predictor for exactly those values, otherwise the rebuilt filter decodes
+// with the default 1 and the tag bytes end up in the data.  The flag that
+// decides whether predictor parameters are written is tabulated for all
+// predictor values.
+func rulePredictorInDict(c *core.Ctx, rule string) {
+	c.Check(rule, "pdf.FilterFlate.toDict/predictor", "predictor parameters are written for every predictor value other than 0 and 1 (2 and 10..15)", func(o *core.Ob) {
+		fn := c.Prog.Func("pdf", "FilterFlate.toDict")
+		g := fn.Graph()
+		info := fn.Info()
+		// the store of /Predictor and its dominating conditions
+		var store *core.V
+		for _, v := range g.Vs {
+			if as, ok := v.AST.(*ast.AssignStmt); ok {
+				for _, l := range as.Lhs {
+					if _, key, ok := core.MapIndexKey(info, l); ok && key == "Predictor" {
+						store = v
+					}
+				}
+			}
+		}
+		if store == nil {
+			o.Count(1)
+			o.Fail("toDict never writes /Predictor")
+			return
+		}
+		o.At(fn.Site(store.AST, "/Predictor written"))
+		// substitute single-definition boolean locals by their definitions
+		subst := map[types.Object]ast.Expr{}
+		ast.Inspect(fn.Decl.Body, func(m ast.Node) bool {
+			if as, ok := m.(*ast.AssignStmt); ok && as.Tok == token.DEFINE && len(as.Lhs) == 1 && len(as.Rhs) == 1 {
+				if obj := core.ObjOf(info, as.Lhs[0]); obj != nil && isBoolObj(obj) {
+					subst[obj] = as.Rhs[0]
+				}
+			}
+			return true
+		})
+		atoms := g.DominatingAtoms(store)
+		vals := []int64{0, 1, 2, 10, 11, 12, 13, 14, 15}
+		for _, p := range vals {
+			o.Count(1)
+			reached := true
+			for _, a := range atoms {
+				dec, why := c.Prog.Tabulate(fn, a.Expr, subst, map[string][]int64{".Predictor": {p}}, func(_ map[string]int64, _ int64, b bool) {
+					if b == a.Neg {
+						reached = false
+					}
+				})
+				if !dec {
+					core.Undecided("condition %s not tabulated: %s", c.Prog.Src(a.Expr), why)
+				}
+			}
+			want := p != 0 && p != 1
+			if reached != want {
+				o.Fail("%s: for /Predictor %d the entry is %s, but the encoder %s a predictor for this value", c.Prog.Pos(store.AST.Pos()), p, map[bool]string{true: "written", false: "not written"}[reached], map[bool]string{true: "applies", false: "does not apply"}[want])
+			}
+		}
 	})
 }
